@@ -124,7 +124,12 @@ impl Op {
             // tokens *containing* inv (INVariant, subINVolution, and a few other
             // pathological cases)
             let def = &parameters.definition;
-            let inverted = def.contains(" inv ") || def.ends_with(" inv");
+            let args = def.split_into_parameters();
+            let is_set = |key: &str| {
+                args.get(key)
+                    .is_some_and(|v| v.is_empty() || v.to_lowercase() == "true")
+            };
+            let inverted = is_set("inv");
             let mut next_param = parameters.next(def);
             next_param.definition = macro_definition;
             return Op::op(next_param, ctx)?.handle_inversion(inverted);
